@@ -149,13 +149,13 @@ func c11EditResil(rng *sim.Rand, prev *c11Resil, pTight float64) *c11Resil {
 			pr.FailCodes = !pr.FailCodes
 		}
 	}
-	for k := rng.Pick(0, 1, 1, 1, 2); k > 0; k-- {
-		switch rng.Intn(8) {
-		case 0, 1, 2, 3:
+	for k := rng.Pick(0, 1, 1, 1, 2, 2, 3); k > 0; k-- {
+		switch rng.Intn(10) {
+		case 0, 1, 2, 3, 4:
 			editPool(&n.Main)
-		case 4, 5:
+		case 5, 6, 7:
 			editPool(&n.Cand)
-		case 6:
+		case 8:
 			n.Srv = (n.Srv + 1 + rng.Intn(2)) % 3 // other servers, same policies
 		default:
 			if rng.Bool(0.5) {
